@@ -442,6 +442,12 @@ class Check:
         try:
             return with_timeout(self.case_timeout, self.impl_run, case)
         except CaseTimeout:
+            pass
+        # a case that overran its budget is run once more with a generous one before it counts as a hang: the
+        # budget is wall-clock time and the machine may be busy with other checks
+        try:
+            return with_timeout(max(10 * self.case_timeout, 60.0), self.impl_run, case)
+        except CaseTimeout:
             return [-3]
 
     def shrink(self, case, sig):
@@ -570,7 +576,11 @@ class Check:
         t_impl = time.time() - t_impl
         nontriv = set()
         for c, o in zip(cases, impl_outs):
-            if self.nontrivial(c, o):
+            try:
+                nt = self.nontrivial(c, o)
+            except Exception:  # noqa -- e.g. the outcome is the hang marker [-3]
+                nt = False
+            if nt:
                 nontriv.add(hashlib.sha256(json.dumps([c, o], sort_keys=True).encode()).hexdigest())
         t_model = time.time()
         by_model = {}
